@@ -22,6 +22,7 @@ class Spec:
     crosscheck_quick = 40
     crosscheck_thorough = 400
     model_jobs = 8
+    header_len = 2             # leading elements of a case that the shrinker must keep
 
     def gen_args(self, tier, seed, config):
         n = self.quick_count if tier == 'quick' else self.thorough_count
@@ -63,7 +64,7 @@ def shrink_case(spec, ctx, config, case, still_fails):
     while changed and budget > 0:
         changed = False
         i = len(cur) - 1
-        while i >= 2 and budget > 0:
+        while i >= spec.header_len and budget > 0:
             cand = cur[:i] + cur[i + 1:]
             if len(cand) > 2 and isinstance(cur[i], list) and cur[i] and cur[i][0] != 't':
                 budget -= 1
@@ -176,8 +177,9 @@ def main(spec, argv):
             ctx[config] = (cases, impl, model)
             # cross-check extraction against the kernel's own evaluation
             k = spec.crosscheck_quick if tier == 'quick' else spec.crosscheck_thorough
-            step = max(1, len(cases) // k)
-            idx = list(range(0, len(cases), step))[:k]
+            small = [j for j in range(len(cases)) if len(cases[j]) + len(model[j]) < 6000]   # keep the literals small enough for coqc
+            step = max(1, len(small) // k)
+            idx = small[::step][:k]
             crosschecked += core.cases_v_crosscheck(prop, [cases[j] for j in idx], [model[j] for j in idx], cdir)
             disagreements += len(mism)
             # classify
